@@ -138,6 +138,8 @@ pub struct ClusterProfile {
     pub codecs: Vec<CodecKind>,
     pub packet: Vec<(u32, u32)>,
     pub suspect_periods: (u32, u32),
+    /// largest starting incarnation (the default leaves room for 8 refutations below Incarnation::MAX)
+    pub inc_cap: u16,
 }
 
 impl Default for ClusterProfile {
@@ -155,6 +157,7 @@ impl Default for ClusterProfile {
             codecs: vec![CodecKind::Fix, CodecKind::Fix, CodecKind::Var, CodecKind::Var, CodecKind::Postcard, CodecKind::Bincode],
             packet: vec![(1400, 1401)],
             suspect_periods: (3, 6),
+            inc_cap: u16::MAX - 8,
         }
     }
 }
@@ -177,13 +180,14 @@ pub fn cluster_spec(p: &ClusterProfile) -> BoxedStrategy<ClusterSpec> {
         None => any::<bool>().boxed(),
     };
     let (jf, inf) = (p.join_formation, p.inject_formation);
+    let inc_cap = p.inc_cap;
     (
         (p.n.0..=p.n.1, proptest::sample::select(p.codecs.clone()), any::<u64>(), proptest::sample::select(p.renew.clone())),
         (1..4u8, p.max_tx.0..=p.max_tx.1, proptest::strategy::Union::new(packet), notify, p.suspect_periods.0..=p.suspect_periods.1),
         (pa, pad, pg),
         // probe_rtt / probe_period ratio 0.2..0.8, latency below rtt/4
         (200..800u32, 1..1000u32),
-        proptest::collection::vec(prop_oneof![4 => Just(0u16), 3 => 1..4u16, 1 => any::<u16>().prop_map(|x| x.min(u16::MAX - 8))], 24),
+        proptest::collection::vec(prop_oneof![8 => Just(0u16), 6 => 1..4u16, 1 => any::<u16>().prop_map(move |x| x.min(inc_cap)), 1 => (0..3u16).prop_map(move |d| inc_cap - d)], 24),
         (proptest::collection::vec((0..1500u32, any::<u16>()), 24), proptest::collection::vec(0..1000u32, 24), proptest::strategy::Union::new_weighted(vec![(jf.max(0), Just(true).boxed()), (inf.max(0), Just(false).boxed())].into_iter().filter(|x| x.0 > 0).collect::<Vec<_>>())),
     )
         .prop_map(|((n, codec, seed, renew), (num_indirect, max_tx, max_packet, notify_down, s2d), (pa, pad, pg), (rtt_ratio, lat_frac), incarnations, (joins, offsets, join))| {
